@@ -339,7 +339,17 @@ def run_old(case, env, res, tmpdir, state):
     style = dict(case.get("style_kw") or {})
     alpha = case["alpha"]
     env.take()
-    tap = dl.TapOut(sys.stdout, tty=case["tty"])
+    base = sys.stdout
+    if case.get("own_stream"):
+        # the application has replaced sys.stdout since the library was imported (another
+        # stream object, with a buffer of its own, on the same terminal): everything a draw
+        # writes has to go through the stream that is sys.stdout *now*, in order
+        import io
+
+        sys.stdout.flush()
+        base = io.TextIOWrapper(io.FileIO(sys.stdout.fileno(), "w", closefd=False), encoding="utf-8", line_buffering=True)  # (as the interpreter sets up a terminal stdout)
+        res.count("draws after sys.stdout was replaced by another stream on the same terminal")
+    tap = dl.TapOut(base, tty=case["tty"])
     saved = sys.stdout
     sys.stdout = tap
     exc = None
@@ -366,6 +376,10 @@ def run_old(case, env, res, tmpdir, state):
         sys.stdout = saved
         image.__dict__.pop("_render_image", None)
     data = env.take()
+    if base is not saved:
+        base.flush()
+        saved.flush()
+        env.take()  # (whatever went to the stream of import time arrives too late to count)
     res.count("draw calls executed")
     res.count("validation: " + ("rejected" if expect else "accepted"))
     desc = ("old", case["style"], env.persona_name, "anim" if animation else "still", frames_n, case["repeat"] if animation else 0, "scroll" if r0 + PH + 1 > rows else "fits", (h, v), "rejected" if expect else "ok", case["tty"])
@@ -461,6 +475,7 @@ def gen_old(rnd, persona):
         tty=rnd.random() < 0.85 or style == "kitty",
         r0f=rnd.choice([0, 1000, 1000, rnd.randint(0, 1000)]),
         ki_sleep=rnd.choice([None, None, None, 1, 2, 3, 5]),
+        own_stream=rnd.random() < 0.12,
     )
     if case["ki_sleep"] is None and rnd.random() < 0.25:
         case["ki_render"] = rnd.choice([1, rnd.randint(1, frames)])
@@ -503,6 +518,7 @@ def corner_cases(persona, index):
                 yield dict(base, ki_sleep=None, ki_render=2)
                 for k in (1, 2, 4):
                     yield dict(base, ki_sleep=None, ki_write=[k, 0.5])
+                yield dict(base, ki_sleep=None, own_stream=True)
     if index == 0:
         for r0f in (0, 200, 1000):
             for pad in (dict(type="aligned", width=10, height=9, h=1, v=1, fill=" "), dict(type="exact", dims=[1, 2, 1, 2], fill="."), dict(type="exact", dims=[0, 0, 0, 0], fill=" ")):
